@@ -70,8 +70,13 @@ def run(ctx):
     # ---------------------------------------------------------------- OrderBook wrapper
     ob = pymethods(ctx, "OrderBook")
     covered = set(OB_TABLE) | {"new", "order_status", "get_trades", "get_orders"}
-    ctx.check(set(ob) <= covered and len(ob) >= 18, "coverage", "OrderBook", "-", "all %d public OrderBook wrapper methods are covered by a rule" % len(ob),
-              "OrderBook wrapper methods without a rule: %s" % sorted(set(ob) - covered))
+    # every method the rules name must exist; further methods (API additions) are outside the property's statement - they are
+    # listed, not judged (a wrapper the rules name that is re-routed through such an addition is still judged on its inlined view)
+    extra = sorted(set(ob) - covered)
+    if extra:
+        ctx.note("OrderBook wrapper methods beyond the ones the property names (not judged): %s" % extra)
+    ctx.check(covered - {"new"} <= set(ob) and len(ob) >= 18, "coverage", "OrderBook", "-", "all %d public OrderBook wrapper methods the property names exist and are covered by a rule" % (len(ob) - len(extra)),
+              "OrderBook wrapper methods missing: %s" % sorted(covered - {"new"} - set(ob)))
     for name, (core, params) in OB_TABLE.items():
         f = ob.get(name)
         if f is None:
